@@ -253,6 +253,11 @@ class TcpConnection(
                     return
                 continue
 
+            if msg.code == 0:
+                # Empty messages can always be sent, also ahead of the CSM,
+                # and are ignored (RFC 8323 Section 3.4)
+                continue
+
             if self._remote_settings is None:
                 self.abort("No CSM received")
                 return
@@ -298,9 +303,6 @@ class _TCPPooling:
     # used by the TcpConnection instances
 
     def _dispatch_incoming(self, connection, msg):
-        if msg.code == 0:
-            return
-
         if msg.code.is_response():
             self._tokenmanager.process_response(msg)
             # ignoring the return value; unexpected responses can be the
